@@ -177,6 +177,10 @@ def make_line(page, l, kind, nlines, n_total):
             probs[t, x if c != x else y] = 0.02
         text = letters[x] + letters[y]
     logits = None
+    if kind == 2 and (PAGES.index(page) + l) % 2 == 1:
+        # the other way a line can fail: logits are present but have no frame, so the exception is raised INSIDE the decoder
+        # call (ValueError), not by the missing-logits guard; PageDecoder.process_page must swallow it just the same
+        logits = sp.csc_matrix(np.zeros((0, len(letters))))
     if kind != 2:
         with np.errstate(divide="ignore"):
             lp = np.log(probs)
@@ -256,7 +260,10 @@ def alone_results(cfgid, pages, nlines, nk):
     out = {}
     for p in pages:
         pd, _ = make_page_decoder(carry, kinds, n_total, record=False, flavour=flavour_of(cfgid))
-        out[p] = results_of(pd.process_page(make_page(p, kinds, nlines, n_total)))
+        try:
+            out[p] = results_of(pd.process_page(make_page(p, kinds, nlines, n_total)))
+        except Exception:           # part of the observation: no history of this page can then equal "the page alone"
+            out[p] = [[97]]
     return out
 
 
